@@ -172,7 +172,8 @@ def compare(base, other, viol, cs, how):
 
 
 def check_doc(case) -> Res:
-    label, d = case
+    label, d = case[0], case[1]
+    part, parts = (case[2], case[3]) if len(case) == 4 else (0, 1)     # thorough: the respellings of one document are judged in slices
     sl.install_schema(SCHEMA, sl.schema_text(SCHEMA, FIELDS))
     x0 = render(d, {}).text
     base = outcomes(x0)
@@ -205,6 +206,7 @@ def check_doc(case) -> Res:
     choices, how = choice_space(d, 5)
     if _CFG["quick"]:
         choices = [c for c in choices if len(c) != 2]      # quick: singles + all-on/all-max; thorough adds all pairs
+    choices = choices[part::parts]
     for ch in choices:
         if not ch:
             continue
@@ -349,7 +351,8 @@ def run(ctx):
     _CFG["quick"] = ctx.quick
     ctx.coverage["bounds"] = {"instance_variants": len(docs), "max_full_product_sites": 5, "profiles": PROFILES,
                               "schema_fields": [f[0] + ":" + f[2] for f in FIELDS]}
-    ctx.explore("respell", docs, check_doc, chunk=1)
+    parts = 1 if ctx.quick else 12
+    ctx.explore("respell", docs if parts == 1 else [(l, d, i, parts) for (l, d) in docs for i in range(parts)], check_doc, chunk=1)
     ctx.explore("number_spellings", sorted(TEXT_VARIANTS), check_text_variant, chunk=1)
     ctx.explore("frontmatter", fm_docs(), check_frontmatter, chunk=1)
     ctx.explore("cli", cli_docs(), check_cli, chunk=1)
@@ -361,7 +364,7 @@ def replay(ctx, rp):
     try:
         if rp.get("subcheck") == "number_spellings":
             return check_text_variant(case["variant"]).violations
-        fn = check_cli if rp.get("subcheck") == "cli" else check_doc
+        fn = {"cli": check_cli, "frontmatter": check_frontmatter}.get(rp.get("subcheck"), check_doc)
         r = fn((case["label"], case["doc"]))
         return [v for v in r.violations if v["descriptor"] == rp.get("descriptor")] or r.violations
     finally:
